@@ -1,4 +1,5 @@
 import OpusProofs.CtlSurround
+import OpusProofs.CtlMsEncode
 import OpusProofs.CtlRanges
 import OpusProofs.EncDecideHonour
 import OpusModel.Gen.CtlConsts
@@ -168,6 +169,20 @@ theorem ctl_inv_multistream :
         msEncInit fs channels streams coupled mapping app sur amb lfe = .ok s → MsInv s) ∧
     (∀ s r, MsInv s → MsInv (msEncCtl s r).1) :=
   ⟨fun _ _ _ _ _ _ _ _ _ _ h => msEncInit_inv h, fun _ r hi => msEncCtl_inv hi r⟩
+
+/-- **ms_encode_keeps_inv**.  A multistream encode call keeps `MsInv`: the per-stream settings it
+    writes (rate allocation → OPUS_SET_BITRATE, surround → OPUS_SET_BANDWIDTH / FORCE_MODE /
+    FORCE_CHANNELS / ENERGY_MASK, ambisonics → FORCE_MODE, CBR last-stream bit-rate) go through
+    `opus_encoder_ctl` and therefore stay legal for ALL values of the rate/bandwidth oracles, the
+    streams keep one application and their layout — given the monitored contract
+    `msEncodeContract` (each stream's encode call stays in the `obsRange` ranges; no stream has coded
+    a frame before the first one).  So `MsInv` holds after ANY ctl/encode history from create. -/
+theorem ms_encode_keeps_inv :
+    (∀ (s : MsEncSt) (f b : Int) (o : MsOracle), MsInv s → msEncodeContract s f b o = true → MsInv (msEncode s f b o)) ∧
+    (∀ fs channels streams coupled mapping app sur amb lfe s0 (evs : List MsEv),
+        msEncInit fs channels streams coupled mapping app sur amb lfe = .ok s0 → msRunOk s0 evs → MsInv (msRun s0 evs)) :=
+  ⟨fun _ f b o hi hc => msEncode_inv hi f b o hc,
+   fun _ _ _ _ _ _ _ _ _ _ evs h hok => msRun_inv (msEncInit_inv h) evs hok⟩
 
 /-! ## 4. Creation -/
 
